@@ -26,6 +26,12 @@ def run(ck, ctx):
                      "that await (cancellation must not return a slot the actor may still write)")
     ck.rule("R02.5", "scatter-gather keeps positions: results that are zipped positionally with their per-shard batches are gathered in "
                      "submission order (join_all / sequential awaits), never in completion order (FuturesUnordered, buffer_unordered, select_all)")
+    ck.rule("R02.6", "one command, one message: in ShardedActorState::execute an arm for a command that is neither multi-key nor "
+                     "keyspace-wide sends at most one message to a shard on any path (a read-modify-write split into a GET message and a "
+                     "SET message lets another client's command run in between: the command no longer takes effect at one instant)")
+    ck.rule("R02.7", "batched pipelines pair every reply with its own request: each key of the batch is pushed into its shard's bucket on "
+                     "every path of the bucketing loop, and the positional result vector is only written from shard responses - never read "
+                     "back to fill another slot")
     ck.nd("the linearizability verdict over interleavings (tokio scheduler and mpsc FIFO order are trusted)")
     ck.nd("Lua script atomicity beyond 'runs inside one handler'")
     for cfg in ctx.configs:
@@ -37,6 +43,8 @@ def run(ck, ctx):
         _r023(ck, prog, cfg)
         _r024(ck, prog, cfg)
         _r025(ck, prog, cfg)
+        _r026(ck, prog, cfg)
+        _r027(ck, prog, cfg)
 
 
 PROD_PREFIXES = ("src/production/", "src/bin/", "src/redis/executor/", "src/streaming/", "src/replication/")
@@ -263,3 +271,86 @@ def _r025(ck, prog, cfg):
         carries_idx = any(is_callee(c, r"Iterator>::zip::") for c in calls)
         ck.check(not unord or carries_idx, "R02.5", "%s:gather%s" % (name.split("::")[0], _tag(cfg)),
                  "batch pipeline gathers in completion order without carrying original indices", f.where(), detail="indices travel with each shard's results")
+
+
+MSG = (r"sharded_actor::ShardHandle::\w+$", r"ShardedActorState::<T>::(pooled_fast_\w+|fast_get|fast_set|fast_batch_\w+)$")
+
+
+def _r026(ck, prog, cfg):
+    from . import c03, effects
+    ex = prog.one(c03.STATE + "execute::{closure#0}")
+    sw, _ = effects.dispatch_table(prog, ex)
+    if sw is None:
+        ck.anchor_lost("R02.6", "ShardedActorState::execute has no dispatch over Command")
+        return
+    allowed = set(c03._multi_key_variants(prog)) | set(c03.KEYSPACE_WIDE)
+    names = [v["n"] for v in prog.adts["redis::command::Command"]["variants"]]
+    arms = {}
+    for v, tg in ex.term(sw)["cases"]:
+        arms.setdefault(tg, []).append(names[int(v)])
+    sends_in = {}
+    for c in prog.children(ex):
+        if any(is_callee(t, *MSG) for g in prog.with_children(c) for _, t in g.calls()):
+            sends_in[c.id] = c
+    n = 0
+    for tg, vs in sorted(arms.items()):
+        if ex.pred(tg) != [sw]:
+            continue
+        n += 1
+        arm = {x for x in ex.reachable_blocks() if ex.dominates(tg, x)}
+        ms = [b for b in arm if ex.term(b)["k"] == "call" and is_callee(ex.term(b), *MSG)]
+        for b, i, st in ex.stmts():
+            if b in arm and st["rv"]["k"] == "agg" and st["rv"].get("n") in sends_in:
+                ms.append(b)
+        rep = [(m1, m2) for m1 in ms for m2 in ms if m2 in ex.reach([m1])]
+        single = [v for v in vs if v not in allowed]
+        key = "execute[%s]%s" % ("|".join(sorted(vs)), _tag(cfg))
+        if single and rep:
+            m1, m2 = rep[0]
+            ck.bad("R02.6", key, "the arm of %s sends more than one message to a shard on one path (lines %s and %s): the command is carried out "
+                   "in several steps between which other clients' commands on the same key can run, so it does not take effect atomically"
+                   % (single, ex.term(m1)["ln"], ex.term(m2)["ln"]), ex.where(ex.term(m1)["ln"]))
+        else:
+            ck.ok("R02.6", key, "%d message site(s)%s" % (len(ms), "" if single else " (multi-key / keyspace-wide)"))
+    # everything else goes through the default arm: exactly one ShardHandle::execute
+    ck.floor("R02.6" + _tag(cfg), n, 8)
+
+
+def _r027(ck, prog, cfg):
+    from . import c03
+    n = 0
+    for nm in ("fast_batch_get_pipeline", "fast_batch_set_pipeline"):
+        f = prog.one(c03.STATE + nm + "::{closure#0}")
+        heads = lib2.loop_heads(f)
+        pushes = [b for b, t in f.calls() if is_callee(t, r"Vec::<\(usize, .*\)>::push$")]
+        ck.check(len(pushes) >= 1, "R02.7", "%s:bucket-push%s" % (nm, _tag(cfg)), "no push of (position, key) into a per-shard bucket found", f.where())
+        for pb in pushes[:1]:
+            mine = [h for h, (none_t, some_t, nb) in heads.items() if pb == some_t or pb in f.reach([some_t], avoid=[h])]
+            if not mine:
+                ck.bad("R02.7", "%s:every-key-sent%s" % (nm, _tag(cfg)), "the bucket push is not inside the loop over the batch", f.where())
+                continue
+            h = min(mine, key=lambda h: len(f.reach([heads[h][1]], avoid=[h])))
+            n += 1
+            skip = lib2.iteration_skips(f, h, set(pushes))
+            ck.check(skip is None, "R02.7", "%s:every-key-sent%s" % (nm, _tag(cfg)),
+                     "an iteration of the bucketing loop can end without queueing its key for a shard: that request is never sent, and whatever "
+                     "fills its reply slot is not the answer to it", f.where(f.term(pb)["ln"]), detail="push on every path of the loop body")
+            lib2.whole_batch(ck, f, h, "R02.7", "%s:whole-batch%s" % (nm, _tag(cfg)), "the batch of keys")
+        # the result vector (what is returned) is write-only until it is returned
+        ret = src_of_operand(f, {"cp": {"l": 0}}, through_calls=TRANSPARENT)
+        res_locals = set()
+        for nmv in f.names:
+            if nmv["n"] == "results" and "p" not in nmv["pl"]:
+                res_locals.add(nmv["pl"]["l"])
+        reads = []
+        for b, t in f.calls():
+            if is_callee(t, r"Vec<redis::resp::RespValue> as std::ops::Index<.*>>::index$", r"Vec::<redis::resp::RespValue>::(get|first|last|iter)$",
+                         r"<impl \[redis::resp::RespValue\]>::(get|first|last|iter)$"):
+                a = src_of_operand(f, t["args"][0], through_calls=TRANSPARENT + (r"Deref>::deref$",))
+                if a.local in res_locals or (a.kind == "path" and a.root == "results"):
+                    reads.append(t)
+        ck.check(bool(res_locals) and not reads, "R02.7", "%s:slots-filled-from-responses%s" % (nm, _tag(cfg)),
+                 "the positional result vector is read back (line %s) before it is returned: a reply slot is filled from another slot instead of "
+                 "from the response to its own request" % (reads[0]["ln"] if reads else "?"), f.where(reads[0]["ln"] if reads else None),
+                 detail="results[i] = response only")
+    ck.floor("R02.7" + _tag(cfg), n, 2)
